@@ -195,7 +195,7 @@ class SimPath:
 # --------------------------------------------------------------------------- data boxes (surface S8)
 
 
-def make_box(records, rows, box, rename=None):
+def make_box(records, rows, box, rename=None, narrow=False):
     """Column container for fill.numpy built from the rows of the record table (``rename``: other column names)."""
     recs = [records[i] for i in rows]
     cols = {
@@ -208,6 +208,13 @@ def make_box(records, rows, box, rename=None):
               else np.array([r["s"] for r in recs], dtype=str)) if recs else np.array([], dtype=str),
         "t": np.array([r["t"] for r in recs], dtype=str) if recs else np.array([], dtype=str),
     }
+    if narrow:
+        # single-precision columns (detector read-out, image data) - only when every value survives the conversion, so that
+        # the row-wise executor, which sees Python floats, works on exactly the same numbers
+        for k_ in ("x", "y"):
+            a32 = cols[k_].astype(np.float32)
+            if np.array_equal(a32.astype(np.float64), cols[k_], equal_nan=True):
+                cols[k_] = a32
     if rename:
         cols = {rename.get(k, k): v for k, v in cols.items()}
     if box == "dict":
